@@ -13,6 +13,8 @@ NOT_YET = {
     "C16": ["PFOR, group, Elias, BP128, adaptive, float metadata: monitors + correspondence only so far"],
     "C05": [],
     "C11": [],
+    "C14": ["termination is by construction (the models are total functions whose loops are bounded by explicit fuel = input size); "
+            "that the fuel of runCountAux suffices is tied by the correspondence, not proved"],
     "C06": ["losslessness of the PFOR, DICT and BITMAP arms (their codecs have no round-trip theorem yet) and hence the unconditional adaptive_roundtrip; analysis facts (isSorted/uniqueCount describe the list) linking select_bitmap_domain to the input list"],
     "C07": ["array-level framing round trip (decode (encode ds) = map roundTripOne ds) is not a theorem: encode bytes are compared with the model and the decoded values are checked on the implementation"],
     "C10": ["bit cells (set/clear/toggle) as theorems: model + monitors + correspondence only; half-float cells not covered (F16C-only code)"],
